@@ -282,3 +282,33 @@ pub fn parse_decimal(b: &[u8]) -> Option<u64> {
         Some(v as u64)
     }
 }
+
+/// The two halves of `precondition`, separately.
+pub fn precondition_failed(if_match: TagCond, ius: Option<u64>, mtime_secs: Option<u64>) -> bool {
+    precondition(if_match, ius, TagCond::Absent, None, mtime_secs) == Precond::Failed412
+}
+pub fn not_modified(if_none_match: TagCond, ims: Option<u64>, mtime_secs: Option<u64>) -> bool {
+    precondition(TagCond::Absent, None, if_none_match, ims, mtime_secs) == Precond::NotModified304
+}
+
+/// Classifies a concrete tag list (`*`, or the listed tags) against an entity tag.
+pub fn tag_cond(star: bool, tags: &[&[u8]], etag: Option<&[u8]>, strong: bool) -> TagCond {
+    if star {
+        return TagCond::Star;
+    }
+    let mut matched = false;
+    if let Some(e) = etag {
+        let mut i = 0;
+        while i < tags.len() {
+            if strong {
+                if tags_strong_eq(tags[i], e) {
+                    matched = true;
+                }
+            } else if tags_weak_eq(tags[i], e) {
+                matched = true;
+            }
+            i += 1;
+        }
+    }
+    TagCond::List { matched }
+}
